@@ -261,6 +261,7 @@ pub fn aggregate(outs: &[JobOut]) -> Value {
     let mut nontrivial = std::collections::HashSet::new();
     let mut programs = std::collections::HashSet::new();
     let mut inc_samples: Vec<String> = vec![];
+    let mut recompilations = 0usize;
     for o in outs {
         paths += o.paths;
         halted += o.ref_halted;
@@ -270,6 +271,7 @@ pub fn aggregate(outs: &[JobOut]) -> Value {
         ptrunc += o.path_truncated;
         dropped += o.dropped_items;
         sub_runs += o.sub_runs;
+        recompilations += o.recompilations;
         sub_trunc += o.sub_truncated;
         compared += o.compared;
         decisions += o.decisions;
@@ -297,6 +299,7 @@ pub fn aggregate(outs: &[JobOut]) -> Value {
         "paths_truncated_by_decision_cap": ptrunc,
         "work_items_dropped_by_path_cap": dropped,
         "subject_runs": sub_runs,
+        "recompilations_compared_by_the_monitor": recompilations,
         "subject_runs_truncated": sub_trunc,
         "event_log_comparisons": compared,
         "open_decisions": decisions,
